@@ -11,15 +11,27 @@ import networkx as nx
 K = 4  # data are multiples of 0.25; costs are multiples of 0.25
 
 
-def closest_flow_cost(G, f, cost, starts=(), ends=(), one_sided=True):
+def grid_of(values, start=4, limit=1 << 16):
+    """Smallest power-of-two multiple K of `start` for which every value*K is integral (None if there is none up to limit)."""
+    k = start
+    while k <= limit:
+        if all(abs(v * k - round(v * k)) < 1e-9 for v in values):
+            return k
+        k *= 2
+    return None
+
+
+def closest_flow_cost(G, f, cost, starts=(), ends=(), one_sided=True, grid=None):
     """G: DiGraph; f: {edge: value >= 0} (edges absent from f have value 0); cost: {edge: scale in [0,1]} default 1.
-    Returns the minimum of sum_e cost_e * |x_e - f_e| over x >= 0 conserving at every non-exempt node."""
+    Returns the minimum of sum_e cost_e * |x_e - f_e| over x >= 0 conserving at every non-exempt node.
+    grid: the values are multiples of 1/grid (default 4); costs are always multiples of 0.25."""
+    KV = grid or K
     N = nx.MultiDiGraph()
     HUB = ("__HUB__",)
     starts, ends = set(starts), set(ends)
     imb = {v: 0 for v in G.nodes()}
     for (u, v) in G.edges():
-        fe = int(round(f.get((u, v), 0) * K))
+        fe = int(round(f.get((u, v), 0) * KV))
         imb[v] += fe
         imb[u] -= fe
     N.add_node(HUB, demand=0)
@@ -28,7 +40,7 @@ def closest_flow_cost(G, f, cost, starts=(), ends=(), one_sided=True):
     for (u, v) in G.edges():
         if u == v:
             continue
-        fe = int(round(f.get((u, v), 0) * K))
+        fe = int(round(f.get((u, v), 0) * KV))
         c = int(round(cost.get((u, v), 1) * K))
         N.add_edge(u, v, weight=c)  # increase x_e (uncapacitated)
         if fe > 0:
@@ -50,4 +62,4 @@ def closest_flow_cost(G, f, cost, starts=(), ends=(), one_sided=True):
         c, _flow = nx.network_simplex(N)
     except nx.NetworkXUnfeasible:
         return None
-    return c / float(K * K)
+    return c / float(K * KV)
